@@ -136,9 +136,15 @@ Section Script.
     rekey_route (i_route i) && negb (is_uninit (i_prov i)) && negb (class_drop i) &&
     match spec_new (i_route i) (i_old i) with Some _ => true | None => false end.
 
+  (* the state point of the job that sits at the destination: for the routes that MOVE first it is the job the move
+     collides with (same state point, other project), otherwise the job at the new state point *)
+  Definition dest_sp (i : input_C04) : json :=
+    match i_route i with RMoveEdit _ _ | RCopyMove _ _ => i_old i | _ => new_sp i end.
+
   Definition script_C04 (i : input_C04) : list (nat * op) * roles :=
     let old := i_old i in
     let nsp := new_sp i in
+    let dsp := dest_sp i in
     let sd := if rekey_route (i_route i) then 0 else 1 in
     let dws := (if rekey_route (i_route i) then PA else PB) ++ [WS] in
     (* 1. source job *)
@@ -148,9 +154,9 @@ Section Script.
     let '(o2, nh) :=
       match i_dest i with
       | DAbsent => ([], 1)
-      | DInit => ((0, OOpenSp sd nsp) :: (0, OInit 1 false) :: pay_ops 1 (i_dpay i), 2)
-      | DHandle => ([(0, OOpenSp sd nsp)], 2)
-      | DEmptyDir => ([(0, OPlantDir (dws ++ [calc_id frepr nsp]))], 1)
+      | DInit => ((0, OOpenSp sd dsp) :: (0, OInit 1 false) :: pay_ops 1 (i_dpay i), 2)
+      | DHandle => ([(0, OOpenSp sd dsp)], 2)
+      | DEmptyDir => ([(0, OPlantDir (dws ++ [calc_id frepr dsp]))], 1)
       end in
     (* 3. the handle the operation goes through *)
     let oid := calc_id frepr old in
@@ -353,6 +359,18 @@ Section Script.
                      && match file_json post (dst ++ [SPF]) with Some v => json_same v nsp | None => false end
                      && tree_same_except [src; dst] pre post
                      && shows 0 true nid dst nsp && doc_is 0 && common
+                 | DInit =>
+                     (* the move is REJECTED (the id is initialised in B): nothing happened, so the later edit is an
+                        ordinary re-key inside A - the job reappears there under the new id with everything, the handle
+                        and every shallow copy follow, the job in B is untouched *)
+                     let dsta := aws ++ [nid] in
+                     is_exn (at_ 2) EDestinationExists && is_unit (at_ 4) && negb (str_eqb nid oid)
+                     && none_under src post && isdir_t post dsta
+                     && tree_same_except [[SPF]] (rel_tree src pre) (rel_tree dsta post)
+                     && match file_json post (dsta ++ [SPF]) with Some v => json_same v nsp | None => false end
+                     && tree_same_except [src; dsta] pre post
+                     && follower 0 nid dsta nsp true && follower 1 nid dsta nsp false && follower 2 nid dsta nsp false
+                     && common
                  | _ => true
                  end
         end
